@@ -20,7 +20,9 @@
    std::hex / std::showbase prints x so that the C++ compiler reads x back (checked by the H3 harness, which compiles the text). *)
 From Coq Require Import List NArith.
 Import ListNotations.
-From Y2 Require Import Model.Registry Model.Compile Model.Codec Model.MiniWr Gen.GenWr Proofs.WrSource Proofs.CodecProofs.
+From Coq Require Import ZArith.
+From Y2 Require Import Model.Registry Model.Compile Model.Codec Spec.Dispatch Model.MiniWr Gen.GenWr Proofs.WrSource Proofs.CodecProofs
+                       Model.MiniDec Gen.GenDec Proofs.DecSource Proofs.WrCompose.
 Local Open Scope nat_scope.
 
 Theorem C13_source_encode_cells : forall C,
@@ -35,6 +37,28 @@ Theorem C13_source_encode_cells : forall C,
   wrun C gen_write_tables = Some (e_dtbls (encode C)).
 Proof. exact src_encode_cells. Qed.
 Print Assumptions C13_source_encode_cells.
+
+(* the hypotheses hold of everything update produces: for every well-formed registry ... *)
+Theorem C13_source_encode_compile : forall R C, wf_registry R -> compile R = Ok C -> small C ->
+  wrun C gen_write_slots = Some (e_slots (encode C)) /\
+  wrun C gen_write_vtbls = Some (e_vtbls (encode C)) /\
+  wrun C gen_write_tables = Some (e_dtbls (encode C)).
+Proof. exact src_encode_compile. Qed.
+Print Assumptions C13_source_encode_compile.
+
+(* ... and both halves together: the cells written by the encoder as generator.hpp has it now, laid out with the array bounds
+   of Codec.encode (which C13_source_encode_sizes shows to be the ones the same function prints), are turned back by the decoder
+   as decode.hpp has it now into the tables, slots and strides and v-table pointers update installed *)
+Theorem C13_source_roundtrip_both : forall R C, wf_registry R -> compile R = Ok C -> small C ->
+  exists slots vtbls dtbls,
+    wrun C gen_write_slots = Some slots /\ wrun C gen_write_vtbls = Some vtbls /\ wrun C gen_write_tables = Some dtbls /\
+    let E := encode C in
+    exists d, decode_src gen_dec (ctx_of C) (mk_enc (e_H E) (e_S E) (e_E E) (e_D E) (e_T E) slots vtbls dtbls) = COk d /\
+      (exists junk, o_image C = dd_image d ++ junk) /\ length (dd_image d) = written C /\
+      dd_ss d = o_ss C /\
+      o_vptr C = map (fun z => (Z.of_nat (tables_len C) + z)%Z) (dd_vptr d).
+Proof. exact src_roundtrip_both. Qed.
+Print Assumptions C13_source_roundtrip_both.
 
 (* non-vacuity: on the compiled example registries of Properties_C13.v the translated loops run and emit the model's cells *)
 Example C13_source_write_example :
